@@ -48,7 +48,7 @@ fn fuses(a: &Tok, b: &Tok) -> bool {
 const WS: &[&str] = &[" ", " ", " ", "  ", "\t", "\n", "\n", "\r\n", "\n\n", " \n  ", "\u{b}", "\u{c}", "\r", "\u{85}", "\u{200e}", "\u{200f}", "\u{2028}", "\u{2029}"];
 
 fn comment(src: &mut Src) -> String {
-    const BODIES: &[&str] = &["", " c ", "x;", " int y = 1; ", "\"", "'", "é中", " } ", "(", "OPENQASM 3;", "pragma p", "**", "+ -", "*", "***", " note *", " x ***", "* a ** b *"];
+    const BODIES: &[&str] = &["", " c ", "x;", " int y = 1; ", "\"", "'", "é中", " } ", "(", "OPENQASM 3;", "pragma p", "**", "+ -", "*", "***", " note *", " x ***", "* a ** b *", "\\", " see C:\\qasm\\lib\\", " continued \\", "\\ x", " \\\\"];
     let b = BODIES[src.below(BODIES.len())];
     match src.below(3) {
         0 => format!("//{b}\n"),
